@@ -65,7 +65,7 @@ JoinTags(agg, srcTags) == CASE agg = "count" -> {"int"}
 Steps == [k : {"add_field"}, t : {"integer", "string"}]
          \cup [k : {"acf"}, op : {"sum", "avg", "min", "multiply", "format", "join", "constant"}, src : {<<"a">>, <<"a", "c">>, <<"b">>}]
          \cup [k : {"delete_b", "select_a", "rename_a", "rename_swap", "set_type_a_number", "set_type_a_string", "filter", "sort", "dedup",
-                    "duplicate", "delete_first", "concatenate", "source", "unpivot_b", "find_replace_b", "validate"}]
+                    "duplicate", "delete_first", "concatenate", "concat_head", "concat_tail", "source", "unpivot_b", "find_replace_b", "validate"}]
          \cup [k : {"join"}, agg : {"sum", "avg", "median", "count", "first", "array", "max"}, f : {"a", "b"}]
 
 First(pkg) == pkg[1]
@@ -93,6 +93,11 @@ Enabled(s, pkg) ==
     [] s.k = "concatenate" -> /\ \A i \in DOMAIN pkg : \E n \in {"a", "b"} : Has(pkg[i], n) /\ "null" \notin Get(pkg[i], n).tags   \* every row has a mapped non-null value (the code asserts it)
                               /\ \A i, j \in DOMAIN pkg : \A n \in {"a", "b"} : (Has(pkg[i], n) /\ Has(pkg[j], n)) => Get(pkg[i], n).type = Get(pkg[j], n).type
                               /\ \A i \in DOMAIN pkg : pkg[i].name # "cc"
+    \* concatenate restricted to the first / the last resource: the others stay where they are, around the target
+    [] s.k \in {"concat_head", "concat_tail"} ->
+           LET r == IF s.k = "concat_head" THEN pkg[1] ELSE pkg[Len(pkg)] IN
+           /\ Len(pkg) >= 2 /\ \E n \in {"a", "b"} : Has(r, n) /\ "null" \notin Get(r, n).tags
+           /\ \A i \in DOMAIN pkg : pkg[i].name # "ch"
     [] s.k = "source" -> Len(pkg) <= 2 /\ \A i \in DOMAIN pkg : pkg[i].name # "extra"
     [] s.k = "join" -> /\ Len(pkg) = 2 /\ pkg[1].name = "res_1" /\ pkg[2].name = "res_2" /\ Has(pkg[1], "a") /\ Has(pkg[2], "a")
                        /\ Has(pkg[1], s.f) /\ ~Has(pkg[2], "j")
@@ -116,6 +121,8 @@ Apply(s, pkg) ==
     [] s.k = "duplicate" -> <<pkg[1], [pkg[1] EXCEPT !.name = pkg[1].name \o "_copy"]>> \o Tail(pkg)       \* duplicate(): the first resource
     [] s.k = "delete_first" -> Tail(pkg)
     [] s.k = "concatenate" -> <<[name |-> "cc", fields |-> ConcatFields(pkg)]>>
+    [] s.k = "concat_head" -> <<[name |-> "ch", fields |-> ConcatFields(<<pkg[1]>>)]>> \o Tail(pkg)
+    [] s.k = "concat_tail" -> SubSeq(pkg, 1, Len(pkg) - 1) \o <<[name |-> "ch", fields |-> ConcatFields(<<pkg[Len(pkg)]>>)]>>
     [] s.k = "source" -> Append(pkg, [name |-> "extra", fields |-> <<F("a", "integer", {"int"}), F("b", "string", {"str"})>>])
     [] s.k = "join" -> <<AddField(pkg[2], F("j", JoinType(s.agg, Get(pkg[1], s.f).type), JoinTags(s.agg, Get(pkg[1], s.f).tags)))>>
 
